@@ -238,6 +238,9 @@ def run(ctx):
                 except Exception as ex_:
                     ctx.violation('taylor raised %r' % ex_, f=fname, z0=str(z0), n=n)
                     continue
+                if len(c) < n + 1:
+                    ctx.violation('taylor returned fewer than n + 1 coefficients', got=len(c), f=fname, z0=str(z0), n=n)
+                    continue
                 if info.degenerate or info.failed:
                     ctx.violation('default options, entire function of modest scale: reported degenerate or failed', f=fname, z0=str(z0), n=n,
                                   degenerate=bool(info.degenerate), failed=bool(info.failed), iterations=int(info.iterations))
